@@ -27,6 +27,8 @@ class SConn:
                   by=by)
         else:
             s.log(ev='other', c=self.name, action=msg[0], spec=msg[1])
+        if s.me() is not None and not s.aborting:
+            s.yield_('sent')
 
     def __repr__(self):
         return self.name
